@@ -14,15 +14,15 @@ TLS_CLASSES = [(tls.SSL30, 0x0035, False), (tls.TLS10, 0x0005, False), (tls.TLS1
                (tls.TLS12, 0xC02F, False), (tls.TLS12, 0x003C, True), (tls.TLS12, 0xCCA8, False), (tls.TLS13, 0x1301, False),
                (tls.TLS13, 0x1303, False)]
 TLS_SHAPES = ["per_record", "span3", "coalesced", "mss7", "reordered", "duplicated", "coalesced_retransmission", "seq_wrap", "garbage_tail", "swapped_records"]
-QUIC_SHAPES = ["default", "coalesced", "key_update", "zero_rtt", "chacha_retry", "two_flows", "rebinding", "rebinding_early"]
+QUIC_SHAPES = ["default", "coalesced", "key_update", "zero_rtt", "chacha_retry", "two_flows", "rebinding", "rebinding_early", "tls_resumed_interleaved", "ch_overlap"]
 
 
 def describe(tier):
     return {
         "rule": f"{len(TLS_CLASSES)} TLS classes x {len(TLS_SHAPES)} packetisations (one record per segment, records spanning 3 "
                 "segments, coalesced flights with two records per segment, 7-byte segments, a displaced segment, a retransmission, a coalescing retransmission, sequence numbers wrapping at 2^32 inside the data, a final record of 21 arbitrary bytes, two whole-record segments captured in swapped order) + "
-                f"{len(QUIC_SHAPES)} QUIC captures (default, coalesced, key updates, 0-RTT, ChaCha20 with Retry, two interleaved flows, the client's UDP port changing in mid-connection (NAT rebinding) late and early); "
-                "for QUIC the exported DATAGRAMS (addresses and payload) of a cut must be a prefix of the next cut's; "
+                f"{len(QUIC_SHAPES)} QUIC captures (default, coalesced, key updates, 0-RTT, ChaCha20 with Retry, two interleaved flows, a resumed TLS session completed before the session it resumes, the client's UDP port changing in mid-connection (NAT rebinding) late and early); "
+                "for QUIC the exported DATAGRAMS (addresses and payload) of a cut must be a prefix of the next cut's, also with -a; "
                 "every cut position 0..N of every capture. non-trivial: a cut whose export is strictly longer than the previous "
                 "cut's; distinct = distinct (capture, cut)",
         "exhaustive": True,
@@ -140,6 +140,16 @@ def build(case):
             fr, data = conn.stream_frames([(0 if d == "c" else 3, 15 + i)])
             conn.dgram(d, [conn.short_pkt(d, fr, gen=g)], stream=data, tag=f"ku{g}")
         flows.append(scen.Flow("quic", conn, cap.Ends(0), 0, scen.quic_packets(conn, 0)))
+    elif sh == "ch_overlap":
+        # the ClientHello arrives in three Initial packets out of order, the pieces overlap (retransmission with other boundaries)
+        flows.append(scen.quic_flow({"ch_split": {"cuts": (50, 150), "order": (0, 2, 1), "packets": True, "overlap": 60}}, seed, 0))
+    elif sh == "tls_resumed_interleaved":
+        # connection A is opened first (its ClientHello leads the capture) but everything else of it comes after connection B,
+        # which resumes A's session (same master secret, abbreviated handshake) and is complete by then
+        fa = scen.tls_flow({"version": tls.TLS12, "suite": 0xC02F, "history": [("c", 50), ("s", 70)]}, seed, 0)
+        fb = scen.tls_flow({"version": tls.TLS12, "suite": 0xC02F, "master": fa.conn.master, "abbreviated": True, "history": [("c", 33), ("s", 44), ("c", 5)]},
+                           seed, 1, key=("resumed",))
+        flows += [fa, fb]
     elif sh in ("rebinding", "rebinding_early"):
         # NAT rebinding: from some datagram on the client's packets come from (and the server's go to) another UDP port;
         # connection ids stay (RFC 9000 section 9: a peer-address change that is not a migration by the endpoint)
@@ -159,7 +169,11 @@ def build(case):
         e2.client.port = flows[0].ends.client.port + 1000
         ends[50] = e2
         flows[0].alt_ends = e2
-    pkts = cap.stamp(scen.round_robin([f.pkts for f in flows]), ends)
+    if sh == "tls_resumed_interleaved":
+        i0 = [i for i, p in enumerate(flows[0].pkts) if p.payload][0]
+        pkts = cap.stamp(flows[0].pkts[:i0 + 1] + flows[1].pkts + flows[0].pkts[i0 + 1:], ends)
+    else:
+        pkts = cap.stamp(scen.round_robin([f.pkts for f in flows]), ends)
     lines = []
     for f in flows:
         lines += f.keylog()
@@ -190,6 +204,7 @@ def run_case(case):
     fails, nontriv = [], []
     n = 0
     prev = None
+    prev_a = None
     truth = {}
     for f in flows:
         if f.kind == "tls":
@@ -223,6 +238,20 @@ def run_case(case):
             if prev is not None and "dgrams" in cur[f.id] and not is_prefix(prev[f.id]["dgrams"], cur[f.id]["dgrams"]):
                 fails.append({"kind": "exported_datagrams_altered_by_longer_capture", "sig": dict(name, flow=f.kind),
                               "sub": {"cut": cut}, "detail": f"the datagrams exported from the first {cut - 1} packets are not a prefix of those from the first {cut}"})
+        if case["kind"] == "quic":
+            # the same cut with metadata export: whatever is exported (handshake bytes too) must stay as it is in a longer capture
+            res_a = scen.run(pkts[:cut], lines, ["-a"])
+            n += 1
+            try:
+                an_a = scen.analyse(res_a)
+                cur_a = [(fr.src_ip, fr.sport, fr.dst_ip, fr.dport, fr.payload) for _, fr in an_a["packets"] if fr.proto == "udp" and fr.payload]
+            except scen.ExportError as e:
+                fails.append({"kind": e.kind, "sig": dict(sig, args="-a"), "detail": e.detail})
+                cur_a = None
+            if prev_a is not None and cur_a is not None and not is_prefix(prev_a, cur_a):
+                fails.append({"kind": "metadata_export_altered_by_longer_capture", "sig": dict(name, args="-a"), "sub": {"cut": cut},
+                              "detail": f"-a: the datagrams exported from the first {cut - 1} packets are not a prefix of those from the first {cut}"})
+            prev_a = cur_a
         if cut == 0 and an["packets"]:
             fails.append({"kind": "empty_capture_exports_packets", "sig": name, "detail": str(len(an["packets"]))})
         if grew:
